@@ -308,7 +308,19 @@ def fam_eig_sparse(d, seed):
         Q = out_states[1]
         w = np.zeros_like(Q)
         w[:, 0] = val.tab(Q.shape[0], 102)
-        return [('Q_one_mode', [None, w], [None, w])]
+        out = [('Q_one_mode', [None, w], [None, w])]
+        # both outputs seeded in one call: eigenvalue of one mode together with the eigenvector of ANOTHER mode (the
+        # eigenvector seed column of the first mode is exactly zero), and eigenvalues of all modes with one eigenvector
+        lam = np.asarray(out_states[0])
+        if lam.size >= 2:
+            wl = np.zeros(lam.shape)
+            wl[0] = 0.8
+            wq = np.zeros_like(Q)
+            wq[:, 1] = val.tab(Q.shape[0], 103)
+            out.append(('lam0_and_Q_mode1', [wl, wq], [wl, wq]))
+            wl2 = 0.3 + 0.5 * np.arange(lam.size)
+            out.append(('all_lam_and_Q_mode1', [wl2, wq.copy()], [wl2, wq.copy()]))
+        return out
     sp = Spec('EigenSolveSparse', make, ins, linear=False, h=1e-3, extra_seeds=extra, seed_cap=12)
     sp.margin = 'eig'
     return sp
